@@ -14,7 +14,7 @@ for d in sorted(glob.glob(os.path.join(out, 'C*'))):
     if only and pid not in only: continue
     for pf in sorted(glob.glob(os.path.join(d, 'patch*.diff'))):
         k = re.search(r'patch(\d+)\.diff', pf).group(1)
-        sid = '%s-%s' % (pid, k)
+        sid = '%s-%s%s' % (pid, os.environ.get('SEED_PREFIX', ''), k)
         dst = os.path.join('/verif/seeded', sid)
         os.makedirs(dst, exist_ok=True)
         shutil.copy(pf, os.path.join(dst, 'patch.diff'))
